@@ -462,6 +462,14 @@ func (w *World) doAppend() {
 	}
 	before := w.M.Heads(n.Set)
 	maxT := w.M.MaxTime(n.Set)
+	// two replicas of one writer in the same state may write the same payload: the entries then differ at
+	// most in their references (another pointer count) - or not at all
+	if tw := w.twinsFor(n); len(tw) > 0 {
+		if k := w.R.Choose("append-twin", 3*len(tw)); k < len(tw) {
+			pl = []byte(tw[k].Payload)
+			w.R.Probe("append-of-a-payload-a-sibling-replica-wrote-in-the-same-state")
+		}
+	}
 	pin := false
 	if w.P.Check["C17"] {
 		pin = w.R.Bool("pin", 1, 4)
@@ -494,6 +502,19 @@ func (w *World) doAppend() {
 	if w.R.Bool("persist-hash", 1, 3) {
 		n.Durable = &durablePtr{kind: 1, c: e.GetHash(), set: copySet(n.Set)}
 	}
+}
+
+// twinsFor: entries of n's writer that n does not hold and that were appended on exactly the heads n has now.
+func (w *World) twinsFor(n *Node) []*MEntry {
+	myKey := hex.EncodeToString(n.W.ID.PublicKey)
+	myHeads := joinS(w.M.Heads(n.Set))
+	var twins []*MEntry
+	for _, h := range w.M.Order {
+		if me := w.M.Reg[h]; !n.Set[h] && me.ClockID == myKey && me.LogID == w.LogID && joinS(sortedCopy(me.Next)) == myHeads {
+			twins = append(twins, me)
+		}
+	}
+	return twins
 }
 
 func (w *World) checkAppend(n *Node, e iface.IPFSLogEntry, me *MEntry, before []string, maxT, pc int) {
